@@ -10,7 +10,8 @@ RULE = ("three-round runs through the public runner for Hypothesis-drawn (countr
         "stored food, crop/grass/fish variants, numeric overrides, horizons 48..120) plus world-scale runs; every linear programme the run "
         "solves is captured (inputs + variable values after the last solve) and audited against balances recomputed from the supplies: "
         "non-negativity, cumulative stored food / crops / meat, monthly SCP and sugar, seaweed ledger and bounds, full use at the horizon, "
-        "feed/biofuel totals vs charge (human rounds) or ceilings + monotone decrease (feed round).  Non-trivial = a completed run in which "
+        "feed/biofuel totals vs charge (human rounds) or ceilings + monotone decrease (feed round).  The rows holding the largest or smallest value of some numeric column of the input table are always run under three "
+        "waste / stock bundles.  Non-trivial = a completed run in which "
         "some round has a stock fully used (within 1 %) and a positive feed+biofuel charge; distinct by (iso3, options).  Thorough: the "
         "164-country axis is enumerated for 12 option bundles.")
 ASSUMPTIONS = ["tolerance 1e-5 billion kcal absolute + 2e-6 relative (CBC primal tolerance 1e-7 on scaled rows)",
